@@ -3,6 +3,7 @@ package main
 import (
 	"go/constant"
 	"go/token"
+	"go/types"
 
 	"golang.org/x/tools/go/ssa"
 )
@@ -67,6 +68,34 @@ func ssaEvalDepth(f *ssa.Function, bind func(v ssa.Value) (constant.Value, bool)
 				memo[v] = c
 			}
 			return c, ok
+		case *ssa.Lookup:
+			// a lookup table: a package-level map filled with constant
+			// entries when the package is initialised
+			if x.CommaOk {
+				return nil, false
+			}
+			if c, ok := globalMapLookup(x, eval); ok {
+				return c, true
+			}
+			return nil, false
+		case *ssa.Extract:
+			if lk, ok := x.Tuple.(*ssa.Lookup); ok && lk.CommaOk {
+				c, found, known := globalMapLookupOK(lk, eval)
+				if !known {
+					return nil, false
+				}
+				if x.Index == 1 {
+					return constant.MakeBool(found), true
+				}
+				if found {
+					return c, true
+				}
+				// zero value of the element type
+				if z := zeroConst(lk.Type().(*types.Tuple).At(0).Type()); z != nil {
+					return z, true
+				}
+				return nil, false
+			}
 		case *ssa.ChangeType:
 			return eval(x.X)
 		case *ssa.Convert:
@@ -187,4 +216,135 @@ func bindParams(f *ssa.Function, vals map[int]constant.Value) func(ssa.Value) (c
 		}
 		return nil, false
 	}
+}
+
+// globalMapEntries: the constant entries stored at package initialisation
+// into the map held by package-level variable g (nil, false if the map is
+// built any other way or modified elsewhere).
+func globalMapEntries(g *ssa.Global) (map[string]constant.Value, bool) {
+	pkg := g.Pkg
+	if pkg == nil {
+		return nil, false
+	}
+	init := pkg.Func("init")
+	if init == nil {
+		return nil, false
+	}
+	var mk *ssa.MakeMap
+	for _, b := range init.Blocks {
+		for _, in := range b.Instrs {
+			if st, ok := in.(*ssa.Store); ok && st.Addr == ssa.Value(g) {
+				m, ok := st.Val.(*ssa.MakeMap)
+				if !ok || mk != nil {
+					return nil, false
+				}
+				mk = m
+			}
+		}
+	}
+	if mk == nil {
+		return nil, false
+	}
+	out := map[string]constant.Value{}
+	for _, ref := range *mk.Referrers() {
+		switch x := ref.(type) {
+		case *ssa.MapUpdate:
+			k, okk := x.Key.(*ssa.Const)
+			v, okv := x.Value.(*ssa.Const)
+			if !okk || !okv || k.Value == nil || v.Value == nil {
+				return nil, false
+			}
+			out[k.Value.ExactString()] = v.Value
+		case *ssa.Store, *ssa.DebugRef:
+		default:
+			return nil, false
+		}
+	}
+	// written anywhere else in the package?
+	for _, mem := range pkg.Members {
+		f, ok := mem.(*ssa.Function)
+		if !ok || f == init {
+			continue
+		}
+		bad := false
+		var visit func(fn *ssa.Function)
+		visit = func(fn *ssa.Function) {
+			for _, b := range fn.Blocks {
+				for _, in := range b.Instrs {
+					if st, ok := in.(*ssa.Store); ok && st.Addr == ssa.Value(g) {
+						bad = true
+					}
+					if mu, ok := in.(*ssa.MapUpdate); ok {
+						if u, ok := mu.Map.(*ssa.UnOp); ok && u.X == ssa.Value(g) {
+							bad = true
+						}
+					}
+				}
+			}
+			for _, a := range fn.AnonFuncs {
+				visit(a)
+			}
+		}
+		visit(f)
+		if bad {
+			return nil, false
+		}
+	}
+	return out, true
+}
+
+func globalMapOf(lk *ssa.Lookup) *ssa.Global {
+	u, ok := lk.X.(*ssa.UnOp)
+	if !ok || u.Op != token.MUL {
+		return nil
+	}
+	g, _ := u.X.(*ssa.Global)
+	return g
+}
+
+func globalMapLookup(lk *ssa.Lookup, eval func(ssa.Value) (constant.Value, bool)) (constant.Value, bool) {
+	c, found, known := globalMapLookupOK(lk, eval)
+	if !known {
+		return nil, false
+	}
+	if found {
+		return c, true
+	}
+	if z := zeroConst(lk.Type()); z != nil {
+		return z, true
+	}
+	return nil, false
+}
+
+func globalMapLookupOK(lk *ssa.Lookup, eval func(ssa.Value) (constant.Value, bool)) (val constant.Value, found, known bool) {
+	g := globalMapOf(lk)
+	if g == nil {
+		return nil, false, false
+	}
+	entries, ok := globalMapEntries(g)
+	if !ok {
+		return nil, false, false
+	}
+	k, ok := eval(lk.Index)
+	if !ok {
+		return nil, false, false
+	}
+	v, has := entries[k.ExactString()]
+	return v, has, true
+}
+
+func zeroConst(t types.Type) constant.Value {
+	b, ok := t.Underlying().(*types.Basic)
+	if !ok {
+		return nil
+	}
+	switch {
+	case b.Info()&types.IsInteger != 0:
+		return constant.MakeInt64(0)
+	case b.Info()&types.IsString != 0:
+		return constant.MakeString("")
+	case b.Info()&types.IsBoolean != 0:
+		return constant.MakeBool(false)
+	}
+	return nil
 }
